@@ -90,6 +90,75 @@ def has_literal_case_under_operator(prog):
     return False
 
 
+def contradiction_in_filter(prog, where, ref_env):
+    """D22 (program feature): a filter predicate containing a conjunction of an expression and its negation (`e & ~e`,
+    `(x != y) & (x == y)`, ...); columns are compared by identity (REF ids), not by spelling."""
+    import json as _json
+
+    from . import kf
+
+    COMPL = {"eq": "ne", "ne": "eq", "lt": "ge", "ge": "lt", "le": "gt", "gt": "le"}
+
+    def canon(e, cur):
+        if isinstance(e, dict):
+            if e.get("k") == "col" and e["t"] in ref_env:
+                return {"id": ref_env[e["t"]].name_to_id().get(e["n"], e["n"])}
+            if e.get("k") == "c" and cur is not None:
+                return {"id": cur.name_to_id().get(e["n"], e["n"])}
+            return {k: canon(v, cur) for k, v in e.items() if k != "sh"}
+        if isinstance(e, list):
+            return [canon(v, cur) for v in e]
+        return e
+
+    def key(e):
+        return _json.dumps(e, sort_keys=True, default=str)
+
+    def negates(a, b):
+        if isinstance(b, dict) and b.get("k") == "fn" and b["op"] == "invert" and key(b["a"][0]) == key(a):
+            return True
+        if isinstance(a, dict) and isinstance(b, dict) and a.get("k") == "fn" and b.get("k") == "fn" and COMPL.get(a["op"]) == b["op"] and len(a["a"]) == 2 and len(b["a"]) == 2:
+            ka, kb = [key(x) for x in a["a"]], [key(x) for x in b["a"]]
+            return ka == kb or (ka == kb[::-1] and a["op"] in ("eq", "ne"))
+        return False
+
+    known = {st["out"] for st in prog["steps"]}
+    idxs = kf.ancestors(prog, where) if where in known else list(range(len(prog["steps"])))
+    for i in idxs:
+        st = prog["steps"][i]
+        if st["verb"] != "filter":
+            continue
+        cur = ref_env.get(st["in"])
+        for n in kf.walk(canon(st["preds"], cur)):
+            if n.get("k") == "fn" and n["op"] in ("and", "hall") and len(n["a"]) >= 2:
+                ops = [a for a in n["a"] if isinstance(a, dict)]
+                if any(negates(a, b) or negates(b, a) for j, a in enumerate(ops) for b in ops[j + 1:]):
+                    return True
+    return False
+
+
+def _unoptimized_plan_agrees(tbl, rtable, mode, f32_inputs):
+    try:
+        import polars as pl
+
+        import pydiverse.transform as pdt
+
+        with M.SAN.paused() if hasattr(M.SAN, "paused") else _nullctx():
+            lf = tbl >> pdt.export(pdt.Polars(lazy=True))
+        df = lf.collect(optimizations=pl.QueryOptFlags.none())
+        p, _ = compare.compare_with_ref(df, rtable, mode, single_precision_inputs=f32_inputs)
+        return p is None
+    except BaseException:  # noqa: BLE001
+        return False
+
+
+class _nullctx:
+    def __enter__(self):
+        return self
+
+    def __exit__(self, *a):
+        return False
+
+
 def has_constant_condition(prog):
     from . import kf
 
@@ -398,6 +467,11 @@ def run_program(prog, backends=("pol", "sqlite"), opts=None, be_cache=None) -> O
                 prob, judged_as = compare.compare_with_ref(df, rf.env[h], mode, single_precision_inputs=f32_inputs)
                 out.probes_judged += 1
                 out.judged_as[judged_as] = out.judged_as.get(judged_as, 0) + 1
+                if prob and be == "pol" and contradiction_in_filter(prog, h, rf.env) and _unoptimized_plan_agrees(rr.env[h], rf.env[h], mode, f32_inputs):
+                    # D22: the LazyFrame that pydiverse.transform built is right - collected without the Polars optimizer it
+                    # equals REF - and only the optimized execution differs: an engine bug, not the library's
+                    out.excluded[be] = "D22"
+                    prob = None
                 if prob:
                     out.add("value:" + be, be, h, prob, verb="export", extra={"judged_as": judged_as})
             if reexport_every and n_exports % reexport_every == 0:
